@@ -33,7 +33,7 @@ FLOORS = {"instances_checked": (3000, 60000), "pairs_compared": (6000, 120000), 
 SHARDS_QUICK = 8
 
 PRISTINE = {}  # id(constant object placed in a class body) -> deep copy taken at declaration
-FLAT = ["A", "B", "C"]
+FLAT = ["A", "B", "C", "S2", "TX"]  # (S2 / TX: names that merely BEGIN like the sections S / T)
 DOTTED = ["S.X", "S.Y", "T.X"]
 
 
@@ -46,7 +46,8 @@ def make_class(r):
     n = r.choice([1, 2, 3, 4, 5])
     members_shared = {}
     for i in range(n):
-        name = f"m{i}"
+        # (a single leading underscore is a naming convention, not a different kind of member)
+        name = f"_m{i}" if r.random() < 0.25 else f"m{i}"
         kind = r.choice(["flat", "dotted", "dotted", "default", "dataset", "const", "inherited", "dispatching", "section", "derived", "derived"])
         target_ns, target_ann = (base_ns, base_ann) if kind == "inherited" else (ns, ann)
         if kind in ("flat", "inherited"):
